@@ -164,7 +164,8 @@ pub fn gen_op(rng: &mut Rng, model: &RefModel, pool: &[String], cfg: &GenCfg, si
                 let want = *rng.pick(&[0, 1, 2, 2]);
                 format!("setbits {} {}", pe(rng, want), rng.next() as u32)
             }
-            1 => format!("setclsid {} {}", pe(rng, if refusal { 1 } else { 2 }), hex(&rng.next().to_le_bytes().iter().chain(rng.next().to_le_bytes().iter()).cloned().collect::<Vec<u8>>())),
+            // a quarter of the CLSIDs are nil: "set what is already there" on a stream is still refused
+            1 => format!("setclsid {} {}", pe(rng, if refusal { 1 } else { 2 }), if rng.chance(1, 4) { "00".repeat(16) } else { hex(&rng.next().to_le_bytes().iter().chain(rng.next().to_le_bytes().iter()).cloned().collect::<Vec<u8>>()) }),
             2 => {
                 let want = *rng.pick(&[0, 1, 2, 2]);
                 format!("setctime {} {} {}", pe(rng, want), rng.below(4_000_000_000) as i64 - 2_000_000_000, rng.below(1_000_000_000))
